@@ -600,4 +600,53 @@ theorem unhit_step [Inhabited V] (C : Codec V) (s : St V) (op : Op V) (F : Fault
   | compute f => exact unhit_compute C s f F hnf
   | reopen => simp [step]
 
+/-! ### ErrTypedValueNotChanged, and which injected faults are hit -/
+
+theorem notChanged_computeWrite (C : Codec V) (s : St V) (f : V → Bool → FnRes V) (F : Faults) (k : Bool)
+    (cur : V) (ex : Bool) (tr : List Ev) (v : V)
+    (h : (computeWrite C s f F k cur ex tr).out = .computed v false) :
+    (computeWrite C s f F k cur ex tr).st = s ∧ v = cur ∧ f cur ex = .notChanged := by
+  unfold computeWrite at h ⊢
+  cases hf : f cur ex with
+  | notChanged => simp only [hf] at h ⊢; simp at h; exact ⟨trivial, h.symm, trivial⟩
+  | fail => simp [hf] at h
+  | ok nv =>
+    simp only [hf] at h
+    cases he : encF C F nv with
+    | none => simp [he] at h
+    | some b => cases k <;> simp [he] at h
+
+/-- `ErrTypedValueNotChanged`: no error, the current value is returned, store and cache are untouched. -/
+theorem notChanged_compute [Inhabited V] (C : Codec V) (s : St V) (f : V → Bool → FnRes V) (F : Faults) (v : V)
+    (h : (compute C s f F).out = .computed v false) : (compute C s f F).st = s := by
+  by_cases hp : s.cv.isSome = true ∧ s.ch = none
+  · rw [compute_panic C s f F hp.1 hp.2]
+  · have hp' : s.cv.isSome = true → s.ch ≠ none := fun a b => hp ⟨a, b⟩
+    rw [compute_eq C s f F hp'] at h ⊢
+    cases hr : computeRead C s F with
+    | exit o tr => rfl
+    | go cur ex tr =>
+      simp only [hr] at h ⊢
+      exact (notChanged_computeWrite C s f F _ cur ex tr v h).1
+
+/-- Injected faults at positions the operation reaches are reported (the cases that do not depend on
+the cache state). -/
+theorem fault_reported [Inhabited V] (C : Codec V) (s : St V) (F : Faults) :
+    (∀ v, F.enc = true → (step C s (.set v) F).out = .err .enc) ∧
+    (∀ v b, F.enc = false → C.enc v = some b → F.kv1 = true → (step C s (.set v) F).out = .err .kv) ∧
+    (F.kv1 = true → (step C s .delete F).out = .err .kv) ∧
+    (s.cv = none → s.ch ≠ some false → F.kv1 = true → (step C s .get F).out = .err .kv) ∧
+    (∀ b, s.cv = none → s.ch ≠ some false → F.kv1 = false → s.store = some b → F.dec = true →
+        (step C s .get F).out = .err .dec) ∧
+    (s.ch = none → F.kv1 = true → (step C s .has F).out = .err .kv) ∧
+    (∀ f, s.cv = none → s.ch = none → F.kv1 = true → (step C s (.compute f) F).out = .err .kv) := by
+  refine ⟨?_, ?_, ?_, ?_, ?_, ?_, ?_⟩
+  · intro v h; simp [step, set, encF, h]
+  · intro v b h1 h2 h3; simp [step, set, encF, h1, h2, h3]
+  · intro h; simp [step, delete, h]
+  · intro h1 h2 h3; simp [step, get, h1, h2, h3]
+  · intro b h1 h2 h3 h4 h5; simp [step, get, h1, h2, h3, h4, decF, h5]
+  · intro h1 h2; simp [step, has, h1, h2]
+  · intro f h1 h2 h3; simp [step, compute, computeRead, needsRead, h1, h2, h3]
+
 end Hive.Typed
